@@ -8,7 +8,7 @@ def op_chains(rng, q, focus):
     out = []
     nrec = {"C13": 150, "C14": 120, "C15": 80}[focus] * (1 if q else 8)
     for _ in range(nrec):
-        rec = rd.random_record(rng, alphabet="ACGT" if rng.random() < 0.8 else "ACGTacgtRYN")
+        rec = rd.random_record(rng, alphabet="ACGT" if rng.random() < 0.8 else "ACGTacgtRYN", order_ops=True)
         if rng.random() < 0.2:      # periodic words: rotation by a period leaves the letters but not the annotations in place
             from Bio.Seq import Seq
             unit = gen.rnd(rng.randint(1, 4), rng)
